@@ -51,7 +51,7 @@ SCH = "crates/apollo-compiler/src/schema/mod.rs"
 
 _clv = [p for p in CL.UNIT["parts"] if isinstance(p, dict) and p.get("name") == "complete_list_value"][0]
 # what unit complete_list proves about complete_list_value and this unit relies on
-CLV_ENSURES = ",\n        ".join(c[2] for c in _clv["clauses"] if c[0] == "ensures" and c[1] in ("errors_lie_at_or_below_the_list", "non_null_positions_are_never_null"))
+CLV_ENSURES = ",\n        ".join(c[2] for c in _clv["clauses"] if c[0] == "ensures" and c[1] in ("errors_lie_at_or_below_the_list", "non_null_positions_are_never_null", "context_unchanged"))
 _paths = CL.PRELUDE[CL.PRELUDE.index("// ---------------- specification: response paths"):CL.PRELUDE.index("// ---------------- specification: CompleteValue for lists")]
 
 PRELUDE = r'''
@@ -214,7 +214,6 @@ pub fn complete_list_value<'a, 'b>(ctx: &mut ExecutionContext<'a>, path: LinkedP
     ensures
         ''' + CLV_ENSURES + r''',
         r == list_completed(path_seq(path), mode, *ty, fields@, stream),
-        final(ctx).document == old(ctx).document, final(ctx).schema == old(ctx).schema,
 { unimplemented!() }
 /// Result Coercion (https://spec.graphql.org/October2021/#sec-Scalars, #sec-Enums.Result-Coercion) at the level of serde_json's value kinds;
 /// apollo-compiler's documented choices: no coercion between kinds (an integer is not a Float), ID is a string or an integer, a custom scalar accepts anything
